@@ -231,7 +231,7 @@ func init() {
 	rt["Clock"] = func(fr *frame, a []value) value { return mkval(fr.i.clockNow(), types.Int64) }
 	rt["RandDistinct"] = func(fr *frame, a []value) value { fr.i.env.randDistinct = a[0].(bool); return nil }
 	rt["Logf"] = func(fr *frame, a []value) value {
-		fr.i.ex.tracef("%s", fr.i.sprintf(fr, a[0].(string), a[1].([]value)))
+		fr.i.ex.tracef("%s", fr.i.sprintf(fr, a[0], a[1].([]value)))
 		return nil
 	}
 	rt["Observe"] = func(fr *frame, a []value) value { return nil }
@@ -518,18 +518,18 @@ func init() {
 	}
 
 	// ---- fmt
-	ext["fmt.Sprintf"] = func(fr *frame, a []value) value { return fr.i.sprintf(fr, a[0].(string), a[1].([]value)) }
+	ext["fmt.Sprintf"] = func(fr *frame, a []value) value { return fr.i.sprintf(fr, a[0], a[1].([]value)) }
 	ext["fmt.Sprint"] = func(fr *frame, a []value) value { return fr.i.sprint(fr, a[0].([]value), false) }
 	ext["fmt.Sprintln"] = func(fr *frame, a []value) value { return fr.i.sprint(fr, a[0].([]value), true) }
 	ext["fmt.Errorf"] = func(fr *frame, a []value) value {
-		s := fr.i.sprintf(fr, a[0].(string), a[1].([]value))
+		s := fr.i.sprintf(fr, a[0], a[1].([]value))
 		return fr.i.newError(fr, s)
 	}
 	ext["fmt.Printf"] = func(fr *frame, a []value) value { return tuple{0, iface{}} }
 	ext["fmt.Println"] = func(fr *frame, a []value) value { return tuple{0, iface{}} }
 	ext["fmt.Print"] = func(fr *frame, a []value) value { return tuple{0, iface{}} }
 	ext["fmt.Fprintf"] = func(fr *frame, a []value) value {
-		s := fr.i.sprintf(fr, a[1].(string), a[2].([]value))
+		s := fr.i.sprintf(fr, a[1], a[2].([]value))
 		return fr.i.writeTo(fr, a[0].(iface), s)
 	}
 	ext["fmt.Fprint"] = func(fr *frame, a []value) value {
@@ -700,7 +700,37 @@ func (i *interpreter) sprint(fr *frame, args []value, ln bool) value {
 	return mkstr(cells)
 }
 
-func (i *interpreter) sprintf(fr *frame, format string, args []value) value {
+func (i *interpreter) sprintf(fr *frame, formatV value, args []value) value {
+	// The format may contain symbolic bytes (a format string assembled from client input):
+	// whether such a byte is '%' is decided by a branch; a symbolic byte in the position of a
+	// flag or verb is supported where no operand depends on it.
+	var fcells []value
+	switch f := formatV.(type) {
+	case string:
+		fcells = strCells(f)
+	case symstr:
+		fcells = []value(f)
+	default:
+		panic(engineError{fmt.Sprintf("format of type %T", formatV)})
+	}
+	c := i.ex.ctx
+	is := func(v value, ch byte) bool {
+		if b, ok := v.(byte); ok {
+			return b == ch
+		}
+		return i.ex.Branch(fr, c.Cmp(smt.OEq, i.term(v), c.BV(uint64(ch), 8)), "fmtchar")
+	}
+	isFlag := func(v value) bool {
+		if b, ok := v.(byte); ok {
+			return strings.IndexByte("+-# 0123456789.", b) >= 0
+		}
+		for _, ch := range []byte("+-# 0123456789.") {
+			if is(v, ch) {
+				panic(engineError{"symbolic flag character in a format string"})
+			}
+		}
+		return false
+	}
 	var out []value
 	lit := func(s string) {
 		for j := 0; j < len(s); j++ {
@@ -708,30 +738,39 @@ func (i *interpreter) sprintf(fr *frame, format string, args []value) value {
 		}
 	}
 	argi := 0
-	for p := 0; p < len(format); p++ {
-		ch := format[p]
-		if ch != '%' {
+	for p := 0; p < len(fcells); p++ {
+		ch := fcells[p]
+		if !is(ch, '%') {
 			out = append(out, ch)
 			continue
 		}
 		q := p + 1
-		for q < len(format) && strings.IndexByte("+-# 0123456789.", format[q]) >= 0 {
+		for q < len(fcells) && isFlag(fcells[q]) {
 			q++
 		}
-		if q >= len(format) {
+		if q >= len(fcells) {
 			lit("%!(NOVERB)")
 			break
 		}
-		verb := format[q]
-		flags := format[p+1 : q]
+		verbV := fcells[q]
+		flags := ""
+		for _, fc := range fcells[p+1 : q] {
+			flags += string(fc.(byte))
+		}
 		p = q
-		if verb == '%' {
+		if is(verbV, '%') {
 			out = append(out, byte('%'))
 			continue
 		}
 		if argi >= len(args) {
-			lit("%!" + string(verb) + "(MISSING)")
+			lit("%!")
+			out = append(out, verbV)
+			lit("(MISSING)")
 			continue
+		}
+		verb, ok := verbV.(byte)
+		if !ok {
+			panic(engineError{"symbolic verb with an operand in a format string"})
 		}
 		out = append(out, i.fmtArg(fr, verb, flags, args[argi])...)
 		argi++
